@@ -376,7 +376,7 @@ def run(ctx, anchors=None):
                      "%s is compared with %s->%s.size() before %s can return success" % (fld, owner, cont, f.name),
                      "%s is taken from transaction data (%s) and %s can return success without comparing it with %s->%s.size(): "
                      "a later %s->%s[%s] reads out of bounds" % (fld, src, f.name, owner, cont, owner, cont, fld))
-    ctx.floor("R15.3", ndefs, 3, "non-constant definitions of the transaction index fields")
+    ctx.floor("R15.3", ndefs, 1, "non-constant definitions of the transaction index fields")
 
     # ---------------------------------------------------------------- R15.4
     nst = 0
